@@ -3,6 +3,8 @@
  * generator of loop-free programs with classes (single / multiple inheritance), methods, instance attributes
    set in __init__ and elsewhere, lambdas, closures, comprehensions over literals, subscripts, builtin calls,
    try/except, isinstance / None tests, conditional and boolean expressions (no imports: typeshed is absent)
+ * gadgets woven into a fraction of the programs: truthiness of user classes, permuted call arguments, cooperative
+   super() diamonds (methods and __init__), instance attributes re-assigned from outside the class
  * CPython execution recording every module-level name, the instance attributes of those values, and the result
    of every module-level call statement `r = f(...)`
  * a parser of the emitted .pyi and a run-time membership oracle over the PRINTED types that only reports
@@ -593,6 +595,157 @@ class Gadgets:
         emit("%s.pick((%s))" % (o, ", ".join(q)), ("method", o, "pick"))
 
 
+  def disjoint_lits(self):
+    """two literals neither of whose printed types admits the other's value (int/bool/float promote)"""
+    num = ("1", "True", "2.5")
+    while True:
+      a, b = self.two_lits()
+      if not (a in num and b in num):
+        return a, b
+
+  # (c) cooperative super() in a diamond: B(A) delegates to super(), which for an instance of D(B, C) is the SIBLING
+  #     C (next in type(self).__mro__), not B's own base A; A and C disagree on the type.  Ordinary methods and
+  #     __init__ (instance attribute).  Only module-level names and instance attributes are checked here: the
+  #     printed return type of B.m is inferred for self: B and is not recorded as a call (see corpus/C01/proposed).
+  def super_diamond(self, init=None):
+    r = self.r
+    s = self.fresh("S")
+    ca, cb, cc, cd = (s + x for x in "ABCD")
+    a, b = self.disjoint_lits()
+    init = (r.random() < 0.5) if init is None else init
+    n = r.randint(0, 2)
+    ps = ["p%d" % i for i in range(n)]
+    sig = "".join(", " + p for p in ps)
+    fwd = ", ".join(ps)
+    sup = r.choice(["super()", "super()", "super()", "super(%s, self)" % cb])
+    bases = "%s, %s" % ((cb, cc) if r.random() < 0.85 else (cc, cb))
+    def args():
+      return ", ".join(r.choice(GADGET_LITS) for _ in range(n))
+    h = self.head
+    leaf = cd
+    if init:
+      x = r.choice(["x", "v", "val"])
+      h += ["class %s:" % ca, "  def __init__(self%s):" % sig, "    self.%s = %s" % (x, a)]
+      getter = r.random() < 0.4
+      if getter:
+        h += ["  def get(self):", "    return self.%s" % x]
+      h += ["class %s(%s):" % (cb, ca), "  def __init__(self%s):" % sig, "    %s.__init__(%s)" % (sup, fwd)]
+      if r.random() < 0.5:
+        h += ["    self.y = %s" % (r.choice(ps) if ps and r.random() < 0.5 else r.choice(GADGET_LITS))]
+      h += ["class %s(%s):" % (cc, ca), "  def __init__(self%s):" % sig]
+      if r.random() < 0.4:
+        h += ["    super().__init__(%s)" % fwd]
+      h += ["    self.%s = %s" % (x, b)]
+      h += ["class %s(%s):" % (cd, bases)]
+      if r.random() < 0.3:
+        h += ["  def __init__(self%s):" % sig, "    super().__init__(%s)" % fwd, "    self.z = %s" % r.choice(GADGET_LITS)]
+      else:
+        h += ["  pass"]
+      if r.random() < 0.25:
+        leaf = s + "E"
+        h += ["class %s(%s):" % (leaf, cd), "  pass"]
+      o = self.fresh("so")
+      self.stmts.append("%s = %s(%s)" % (o, leaf, args()))
+      self.stmts.append("%s = %s.%s" % (self.fresh("sn"), o, x))
+      if getter:
+        self.stmts.append("%s = %s.get()" % (self.fresh("sr"), o))
+      if r.random() < 0.4:
+        o2 = self.fresh("so")
+        self.stmts.append("%s = %s(%s)" % (o2, cb, args()))
+        self.stmts.append("%s = %s.%s" % (self.fresh("sn"), o2, x))
+    else:
+      m = r.choice(["m", "get", "val"])
+      h += ["class %s:" % ca, "  def %s(self%s):" % (m, sig), "    return %s" % a]
+      h += ["class %s(%s):" % (cb, ca), "  def %s(self%s):" % (m, sig)]
+      call = "%s.%s(%s)" % (sup, m, fwd)
+      shape = r.randrange(4)
+      if shape == 0:
+        h += ["    t = %s" % call, "    return t"]
+      elif shape == 1:
+        h += ["    return (%s, %s)" % (call, r.choice(GADGET_LITS))]
+      else:
+        h += ["    return %s" % call]
+      h += ["class %s(%s):" % (cc, ca), "  def %s(self%s):" % (m, sig), "    return %s" % b]
+      h += ["class %s(%s):" % (cd, bases)]
+      if r.random() < 0.3:
+        h += ["  def %s(self%s):" % (m, sig), "    return super().%s(%s)" % (m, fwd)]
+      else:
+        h += ["  pass"]
+      if r.random() < 0.25:
+        leaf = s + "E"
+        h += ["class %s(%s):" % (leaf, cd), "  pass"]
+      if r.random() < 0.5:
+        o = self.fresh("so")
+        self.stmts.append("%s = %s()" % (o, leaf))
+        self.stmts.append("%s = %s.%s(%s)" % (self.fresh("sr"), o, m, args()))
+      else:
+        self.stmts.append("%s = %s().%s(%s)" % (self.fresh("sr"), leaf, m, args()))
+      if r.random() < 0.4:
+        self.stmts.append("%s = %s().%s(%s)" % (self.fresh("sr"), cb, m, args()))
+
+  # (d) instance attributes re-assigned from OUTSIDE the class on module-level instances (unconditionally, in one
+  #     branch, in both branches of an `if` on a module-level name), then read (`n = o.a`) and returned by a method
+  #     (`r = o.m()`).  The attribute is always set by __init__ and has no class-level default (a store in one
+  #     branch shadowing a class-level default on every path is an unlisted pytype defect, corpus/C01/proposed).
+  OPAQUE_CONDS = ["int('1')", "int('0')", "len([1])", "len('')", "'a'.upper()", "''.strip()", "abs(-1)"]
+
+  def outside_store(self):
+    r = self.r
+    k = self.fresh("K")
+    a, b = self.disjoint_lits()
+    x = r.choice(["a", "b", "t"])
+    n = r.randint(0, 2)
+    ps = ["p%d" % i for i in range(n)]
+    sig = "".join(", " + p for p in ps)
+    h = self.head
+    from_param = n > 0 and r.random() < 0.3
+    h += ["class %s:" % k, "  def __init__(self%s):" % sig, "    self.%s = %s" % (x, "p0" if from_param else a)]
+    if r.random() < 0.3:
+      h += ["    self.u = %s" % r.choice(GADGET_LITS)]
+    setter = r.random() < 0.3
+    if setter:
+      h += ["  def fill(self):", "    self.%s = %s" % (x, r.choice(GADGET_LITS))]
+    h += ["  def m(self):", "    return self.%s" % x]
+    cls = k
+    if r.random() < 0.3:
+      cls = k + "Q"
+      h += ["class %s(%s):" % (cls, k), "  pass"]
+    def args():
+      xs = [r.choice(GADGET_LITS) for _ in range(n)]
+      if from_param:
+        xs[0] = a
+      return ", ".join(xs)
+    o = self.fresh("ko")
+    self.stmts.append("%s = %s(%s)" % (o, cls, args()))
+    o2 = None
+    if r.random() < 0.4:
+      o2 = self.fresh("ko")
+      self.stmts.append("%s = %s(%s)" % (o2, cls, args()))
+    if setter and r.random() < 0.5:
+      self.stmts.append("%s.fill()" % o)
+    shape = r.randrange(4)
+    if shape == 0:
+      self.stmts.append("%s.%s = %s" % (o, x, b))
+    else:
+      c = self.fresh("kc")
+      self.stmts.append("%s = %s" % (c, r.choice(self.OPAQUE_CONDS)))
+      test = c if r.random() < 0.7 else "not %s" % c
+      if shape == 1:
+        b2 = r.choice([y for y in GADGET_LITS if y != b])
+        self.stmts.append("if %s:\n  %s.%s = %s\nelse:\n  %s.%s = %s" % (test, o, x, b, o, x, b2))
+      else:
+        self.stmts.append("if %s:\n  %s.%s = %s" % (test, o, x, b))
+    self.stmts.append("%s = %s.%s" % (self.fresh("kn"), o, x))
+    rr = self.fresh("kr")
+    self.stmts.append("%s = %s.m()" % (rr, o))
+    if r.random() < 0.05:
+      # the printed return type of m is the known finding method-return:attribute-redefined-outside-defining-class
+      self.calls.append((rr, "method", o, "m"))
+    if o2 is not None:
+      self.stmts.append("%s = %s.%s" % (self.fresh("kn"), o2, x))
+      self.stmts.append("%s = %s.m()" % (self.fresh("kr"), o2))
+
+
 def weave(src, gad, r2):
   """definitions first, statements at random top-level statement boundaries (relative order kept)"""
   lines = src.rstrip("\n").split("\n")
@@ -622,6 +775,14 @@ def generate(r, n_stmts):
   if r2.random() < 0.35:
     for _ in range(r2.randint(1, 2)):
       gad.permuted_calls()
+  if r2.random() < 0.33:
+    gad.super_diamond()
+    if r2.random() < 0.25:
+      gad.super_diamond()
+  if r2.random() < 0.30:
+    gad.outside_store()
+    if r2.random() < 0.25:
+      gad.outside_store()
   if gad.head:
     src = weave(src, gad, r2)
   return src, g.calls + gad.calls
